@@ -1,0 +1,96 @@
+//go:build verif
+
+package deps
+
+// Contracts checked by /verif (vcgo). Comment-only: no executable code.
+// C19: every declared dependency is extracted once, in order; the unused report is exactly the sub-list of
+// declared dependencies whose group id occurs in no import.
+
+// ---- imports
+
+//@ spec rec ImpIn(is []core_domain.CodeImport, n int, s string) bool := n <= 0 ? false : (ImpIn(is, n - 1, s) || is[n - 1].Source == s)
+//@ spec rec ImpD(ds []core_domain.CodeDataStruct, n int, s string) bool := n <= 0 ? false : (ImpD(ds, n - 1, s) || ImpIn(ds[n - 1].Imports, len(ds[n - 1].Imports), s))
+
+//@ method DepAnalysisApp.BuildImportMap
+//@ ensures result != nil
+//@ ensures forall s string :: {s in result} (s in result) <==> ImpD(deps, len(deps), s)
+//@ loop 1 invariant impMap != nil
+//@ loop 1 invariant forall s string :: {s in impMap} {ImpD(deps, #i, s)} (s in impMap) <==> ImpD(deps, #i, s)
+//@ loop 2 invariant impMap != nil
+//@ loop 2 invariant forall s string :: {s in impMap} {ImpIn(clz.Imports, #i, s)} (s in impMap) <==> (ImpD(deps, #i1, s) || ImpIn(clz.Imports, #i, s))
+
+// ---- the unused report
+
+// a dependency is used when its group id occurs in some import
+//@ spec Used(g string, m map[string]core_domain.CodeImport) bool := exists k string :: (k in m) && Contains(k, g)
+// number of unused dependencies among the first n declared ones = position of the next unused one in the report
+//@ spec rec Kept(ds []core_domain.CodeDependency, m map[string]core_domain.CodeImport, n int) int := n <= 0 ? 0 : Kept(ds, m, n - 1) + (Used(ds[n - 1].GroupId, m) ? 0 : 1)
+//@ axiom Kept_range: forall ds []core_domain.CodeDependency, m map[string]core_domain.CodeImport, n int :: {Kept(ds, m, n)} n >= 0 ==> 0 <= Kept(ds, m, n) && Kept(ds, m, n) <= n
+
+// the Gradle front-end walks a parse tree; its listener is under contract in package ast_groovy
+//@ func AnalysisGradleFile
+//@ noinline
+//@ modifies ast_groovy.nodeDeps
+
+//@ method DepAnalysisApp.AnalysisPath
+//@ modifies ast_groovy.nodeDeps
+//@ assert return len(result) == Kept(mavenDeps, importMap, len(mavenDeps))
+//@ assert return forall i int :: {mavenDeps[i]} 0 <= i && i < len(mavenDeps) && !Used(mavenDeps[i].GroupId, importMap) ==> result[Kept(mavenDeps, importMap, i)] == mavenDeps[i]
+//@ assert return forall s string :: {s in importMap} (s in importMap) <==> ImpD(nodes, len(nodes), s)
+//@ loop 3 invariant needRemoveMap != nil
+//@ loop 3 invariant forall j int :: {j in needRemoveMap} (j in needRemoveMap) <==> (0 <= j && j < #i && Used(mavenDeps[j].GroupId, importMap))
+//@ loop 4 invariant needRemoveMap != nil
+//@ loop 4 invariant forall j int :: {j in needRemoveMap} (j in needRemoveMap) <==> (0 <= j && j < #i3 && Used(mavenDeps[j].GroupId, importMap)) || (j == depIndex && (exists k string :: Visited(k) && Contains(k, dep.GroupId)))
+//@ loop 5 invariant len(results) == Kept(mavenDeps, importMap, #i)
+//@ loop 5 invariant forall i int :: {mavenDeps[i]} 0 <= i && i < #i && !Used(mavenDeps[i].GroupId, importMap) ==> Kept(mavenDeps, importMap, i) < len(results) && results[Kept(mavenDeps, importMap, i)] == mavenDeps[i]
+
+// ---- Maven
+
+// the element tree of a pom's <dependencies>: children are elements, and so are theirs; groupId / artifactId / scope hold text only
+//@ spec Kid(n xmlparse.XMLNode, i int) xmlparse.XMLNode := n.Elements[i].Val.(xmlparse.XMLNode)
+//@ spec IsField(s string) bool := s == "groupId" || s == "artifactId" || s == "scope"
+//@ spec TextOnly(n xmlparse.XMLNode) bool := forall t int :: {n.Elements[t]} 0 <= t && t < len(n.Elements) ==> TypeIs(n.Elements[t].Val, string)
+//@ spec DepShape(d xmlparse.XMLNode) bool := forall j int :: {d.Elements[j]} 0 <= j && j < len(d.Elements) ==> TypeIs(d.Elements[j].Val, xmlparse.XMLNode) && (IsField(Kid(d, j).Name) ==> TextOnly(Kid(d, j)))
+//@ spec PomShape(v xmlparse.XMLNode) bool := forall i int :: {v.Elements[i]} 0 <= i && i < len(v.Elements) ==> TypeIs(v.Elements[i].Val, xmlparse.XMLNode) && DepShape(Kid(v, i))
+
+// text of the field `name` of a <dependency>: the last text of the last non-empty child element of that name
+//@ spec LastText(n xmlparse.XMLNode) string := n.Elements[len(n.Elements) - 1].Val.(string)
+//@ spec rec Field(d xmlparse.XMLNode, name string, k int) string := k <= 0 ? "" : (Kid(d, k - 1).Name == name && len(Kid(d, k - 1).Elements) > 0 ? LastText(Kid(d, k - 1)) : Field(d, name, k - 1))
+//@ spec FieldOf(d xmlparse.XMLNode, name string) string := Field(d, name, len(d.Elements))
+
+// r lists the children of <dependencies> v: one entry per child, in order, with its three fields and nothing else
+//@ spec Extracted(r []core_domain.CodeDependency, v xmlparse.XMLNode) bool := len(r) == len(v.Elements) &&
+//@    (forall i int :: {r[i]} 0 <= i && i < len(r) ==> r[i].GroupId == FieldOf(Kid(v, i), "groupId") && r[i].ArtifactId == FieldOf(Kid(v, i), "artifactId") && r[i].Scope == FieldOf(Kid(v, i), "scope") &&
+//@        r[i].Type == "" && r[i].Version == "" && !r[i].Optional)
+
+//@ func BuildDeps
+//@ requires PomShape(val)
+//@ ensures Extracted(result, val)
+//@ loop 1 invariant len(deps) == #i
+//@ loop 1 invariant forall i int :: {deps[i]} 0 <= i && i < #i ==> deps[i].GroupId == FieldOf(Kid(val, i), "groupId") && deps[i].ArtifactId == FieldOf(Kid(val, i), "artifactId") && deps[i].Scope == FieldOf(Kid(val, i), "scope")
+//@ loop 1 invariant forall i int :: {deps[i]} 0 <= i && i < #i ==> deps[i].Type == "" && deps[i].Version == "" && !deps[i].Optional
+//@ loop 2 invariant dependency != nil && Allocated(dependency)
+//@ loop 2 invariant (*dependency).GroupId == Field(depNode, "groupId", #i) && (*dependency).ArtifactId == Field(depNode, "artifactId", #i) && (*dependency).Scope == Field(depNode, "scope", #i)
+//@ loop 2 invariant (*dependency).Type == "" && (*dependency).Version == "" && !(*dependency).Optional
+//@ loop 3 invariant dependency != nil && Allocated(dependency)
+//@ loop 3 invariant (*dependency).GroupId == (#i == 0 ? Field(depNode, "groupId", #i2) : node.Elements[#i - 1].Val.(string))
+//@ loop 3 invariant (*dependency).ArtifactId == Field(depNode, "artifactId", #i2) && (*dependency).Scope == Field(depNode, "scope", #i2)
+//@ loop 3 invariant (*dependency).Type == "" && (*dependency).Version == "" && !(*dependency).Optional
+//@ loop 4 invariant dependency != nil && Allocated(dependency)
+//@ loop 4 invariant (*dependency).ArtifactId == (#i == 0 ? Field(depNode, "artifactId", #i2) : node.Elements[#i - 1].Val.(string))
+//@ loop 4 invariant (*dependency).GroupId == Field(depNode, "groupId", #i2 + 1) && (*dependency).Scope == Field(depNode, "scope", #i2)
+//@ loop 4 invariant (*dependency).Type == "" && (*dependency).Version == "" && !(*dependency).Optional
+//@ loop 5 invariant dependency != nil && Allocated(dependency)
+//@ loop 5 invariant (*dependency).Scope == (#i == 0 ? Field(depNode, "scope", #i2) : node.Elements[#i - 1].Val.(string))
+//@ loop 5 invariant (*dependency).GroupId == Field(depNode, "groupId", #i2 + 1) && (*dependency).ArtifactId == Field(depNode, "artifactId", #i2 + 1)
+//@ loop 5 invariant (*dependency).Type == "" && (*dependency).Version == "" && !(*dependency).Optional
+
+// the root of a conventional pom: elements only, and its <dependencies> children are well shaped
+//@ spec RootShape(r xmlparse.XMLNode) bool := forall i int :: {r.Elements[i]} 0 <= i && i < len(r.Elements) ==> TypeIs(r.Elements[i].Val, xmlparse.XMLNode) && (Kid(r, i).Name == "dependencies" ==> PomShape(Kid(r, i)))
+//@ spec NoDepsBefore(n xmlparse.XMLNode, k int) bool := forall j int :: {n.Elements[j]} 0 <= j && j < k ==> Kid(n, j).Name != "dependencies"
+
+// the first <dependencies> child of the root is the one extracted; without one the result is nil
+//@ func AnalysisMaven
+//@ assert return NoDepsBefore(*parseXml, len((*parseXml).Elements)) ==> result == nil
+//@ assert return forall k int :: {(*parseXml).Elements[k]} 0 <= k && k < len((*parseXml).Elements) && Kid(*parseXml, k).Name == "dependencies" && NoDepsBefore(*parseXml, k) ==> Extracted(result, Kid(*parseXml, k))
+//@ loop 1 invariant NoDepsBefore(*parseXml, #i)
